@@ -1,7 +1,84 @@
 mod smoke;
 
+use vcommon::{BatchOptions, Check, Tier};
+
+fn usage() -> ! {
+    eprintln!("usage: verif check <ID> <quick|thorough> | replay <file> [--quiet] | selftest [n] | digests <family> <n> <threads> | list | smoke");
+    std::process::exit(2);
+}
+
 fn main() {
     ptpsim::support::install_logger();
     vcommon::install_panic_hook();
-    smoke::run();
+    let args: Vec<String> = std::env::args().collect();
+    if args.len() < 2 {
+        usage();
+    }
+    let all = ptpsim::checks::all();
+    match args[1].as_str() {
+        "smoke" => smoke::run(),
+        "list" => {
+            for c in &all {
+                println!("{} {} quick={} thorough={}", c.property(), c.family(), c.budget(Tier::Quick), c.budget(Tier::Thorough));
+            }
+        }
+        "check" => {
+            if args.len() < 4 {
+                usage();
+            }
+            let prop = args[2].as_str();
+            let tier = match args[3].as_str() {
+                "quick" => Tier::Quick,
+                "thorough" => Tier::Thorough,
+                _ => usage(),
+            };
+            let fams: Vec<&dyn Check> = all.iter().filter(|c| c.property() == prop).map(|c| c.as_ref()).collect();
+            if fams.is_empty() {
+                eprintln!("HARNESS-ERROR: no check registered for {prop}");
+                std::process::exit(2);
+            }
+            let opts = BatchOptions::from_env();
+            let code = vcommon::run_property(prop, &fams, tier, &opts, &ptpsim::checks::extras(prop));
+            std::process::exit(code);
+        }
+        "replay" => {
+            if args.len() < 3 {
+                usage();
+            }
+            let quiet = args.iter().any(|a| a == "--quiet");
+            let fams: Vec<&dyn Check> = all.iter().map(|c| c.as_ref()).collect();
+            std::process::exit(vcommon::replay_file(&args[2], &fams, quiet));
+        }
+        "digests" => {
+            // verif digests <family> <n> <threads>: print per-seed digests (for the determinism proof)
+            let fam = all.iter().find(|c| c.family() == args[2]).unwrap_or_else(|| usage());
+            let n: u64 = args[3].parse().unwrap();
+            let th: usize = args[4].parse().unwrap();
+            let tier = if args.get(5).map(|s| s.as_str()) == Some("thorough") { Tier::Thorough } else { Tier::Quick };
+            let seed = BatchOptions::from_env().base_seed;
+            for (i, d, c) in vcommon::digests(fam.as_ref(), tier, seed, n, th) {
+                println!("{i} {d:016x} {c}");
+            }
+        }
+        "selftest" => {
+            // every family: n seeds, in separate processes at 1, 4 and 16 threads; all digest lists must agree
+            let n: u64 = args.get(2).and_then(|s| s.parse().ok()).unwrap_or(200);
+            let exe = std::env::current_exe().unwrap();
+            let mut bad = 0;
+            for c in &all {
+                let mut outs = Vec::new();
+                for th in [1usize, 4, 16] {
+                    let o = std::process::Command::new(&exe).args(["digests", c.family(), &n.to_string(), &th.to_string()]).output().expect("spawn");
+                    outs.push(String::from_utf8_lossy(&o.stdout).to_string());
+                }
+                let ok = outs[0] == outs[1] && outs[1] == outs[2] && outs[0].lines().count() as u64 == n;
+                println!("selftest {} {}: {} seeds x 3 processes (1/4/16 threads): {}", c.property(), c.family(), n, if ok { "identical" } else { "MISMATCH" });
+                if !ok {
+                    bad += 1;
+                }
+            }
+            std::process::exit(if bad == 0 { 0 } else { 2 });
+        }
+        _ => usage(),
+    }
 }
